@@ -8,6 +8,8 @@ import (
 	"math/rand"
 	"net/http"
 	"strings"
+
+	"github.com/labstack/echo/v4/middleware"
 )
 
 type c03Case struct {
@@ -33,6 +35,9 @@ func c03Run(ci any) Result {
 	c := ci.(*c03Case)
 	var cur rObs
 	e := rEchoWarm(c.Routes, c.Warm, []rReq{c.Req, {Method: http.MethodOptions, Path: c.Req.Path}, {Method: "X-UNREGISTERED", Path: c.Req.Path}}, &cur)
+	if c.Req.Override {
+		e.Pre(middleware.MethodOverride())
+	}
 	prior := false
 	if (len(c.Req.Path)+len(c.Routes))%2 == 0 {
 		// the pooled context has served a request that reached a handler just before: what that request left
@@ -232,6 +237,7 @@ func c03Gen(r *rand.Rand, tier string) []any {
 				m = []string{"OPTIONS", "PATCH", "HEAD", "X-UNREGISTERED", "TRACE"}[r.Intn(5)]
 			}
 			cs := &c03Case{Routes: routes, Req: rReq{Method: m, Path: rGenPath(r, routes)}}
+			cs.Req.Override = m != "" && r.Intn(8) == 0 // arrives as POST + X-HTTP-Method-Override under e.Pre(MethodOverride())
 			if len(routes) > 1 && r.Intn(3) == 0 {
 				cs.Warm = 1 + r.Intn(len(routes)-1)
 			}
